@@ -430,6 +430,11 @@ func c01DrainFor(patience time.Duration, it obiiter.IBioSequence) (orders []int,
 		for it.Next() {
 			b := it.Get()
 			ch <- bt{b.Order(), c01ObserveSlice(b.Slice())}
+			// the consumer is done with the batch: like obigrep with the records it rejects or a writer with the
+			// records it has formatted, it gives the records back, which feeds the slice pool the readers draw from
+			for _, s := range b.Slice() {
+				s.Recycle()
+			}
 		}
 		res = ""
 	}()
